@@ -1,7 +1,9 @@
 /-
   C15 — model of the client rate limiter and of the admission points.
 
-  Go sources mirrored here (as they are now, i.e. after the D8/D9 repairs):
+  Go sources mirrored here (as they are now, i.e. after the repairs D8/D9, 0275661, 8757f14,
+  f8b61d0 — `AllowN` clamps the caller's time stamp to the entry's `lastSeen` — and 10570ce —
+  the gnet and fasthttp listeners charge queries):
 
     internal/limiter/client_limiter.go   ClientLimiterOpts.setDefault, NewClientLimiter,
                                          ClientLimiter.AllowN, mask, gc (with the fullness
@@ -14,6 +16,9 @@
                                          listener.Accept
     app/router/router.go                 limiterAllowN, the post-charges of handleReq
     app/router/server_*.go               admission points and what is done on refusal
+
+  Time stamps are the caller's (`time.Now()` taken before the bucket's lock): they reach a
+  bucket in any order; `ClientLimiter.clock` is the clamp, `allowNAt` the locked region after it.
 
   Units.  Time is a `Nat` number of nanoseconds after an arbitrary base instant that is
   later than the zero `time.Time` by more than 292 years (every real clock reading is).
@@ -36,6 +41,7 @@ import MosVerif.Util
 -- @component limiter MosVerif.Limiter.run
 -- @component limiter_listener MosVerif.Limiter.runListener
 -- @component limiter_gcrace MosVerif.Limiter.runGcRace
+-- @component limiter_clock MosVerif.Limiter.runClock
 namespace MosVerif.Limiter
 
 /-! ## constants -/
@@ -149,14 +155,26 @@ def ClientLimiter.new (o : Opts) : ClientLimiter := ⟨o.setDefault, fun _ => no
 def ClientLimiter.limit (cl : ClientLimiter) : Nat := cl.opts.limit.toNat
 def ClientLimiter.burst (cl : ClientLimiter) : Nat := cl.opts.burst.toNat
 
-/-- `LoadOrCompute(mask(addr), NewLimiter(limit, burst))`; `lastSeen = now`; `l.AllowN(now, n)` -/
-def ClientLimiter.allowN (cl : ClientLimiter) (addr : Addr) (now n : Nat) : Bool × ClientLimiter :=
+/-- The locked region of `AllowN` once the time stamp is settled:
+    `LoadOrCompute(mask(addr), NewLimiter(limit, burst))`; `lastSeen = now`; `l.AllowN(now, n)` -/
+def ClientLimiter.allowNAt (cl : ClientLimiter) (addr : Addr) (now n : Nat) : Bool × ClientLimiter :=
   let k := mask cl.opts addr
   let b := match cl.m k with
     | some e => e.b
     | none => Bucket.fresh
   let r := b.allowN cl.limit cl.burst now n
   (r.1, { cl with m := cl.m.set k (some ⟨r.2, now⟩) })
+
+/-- `if now.Before(e.lastSeen) { now = e.lastSeen }` (repair f8b61d0): a bucket's clock never
+    goes backwards; a new entry has the zero `lastSeen`, which is before everything. -/
+def ClientLimiter.clock (cl : ClientLimiter) (addr : Addr) (now : Nat) : Nat :=
+  match cl.m (mask cl.opts addr) with
+  | some e => max e.lastSeen now
+  | none => now
+
+/-- `ClientLimiter.AllowN(addr, now, n)` for an arbitrary caller-supplied time stamp -/
+def ClientLimiter.allowN (cl : ClientLimiter) (addr : Addr) (now n : Nat) : Bool × ClientLimiter :=
+  cl.allowNAt addr (cl.clock addr now) n
 
 /-- Does `gc` require the bucket to have refilled before dropping it?  `true` is the code as
     it is now (`full := value.l.TokensAt(now) >= float64(value.l.Burst())`,
@@ -187,12 +205,20 @@ structure Ev where
   n : Nat
   deriving DecidableEq, Repr
 
-/-- the decision vector of a history -/
+/-- the decision vector of a history (time stamps in any order) -/
 def ClientLimiter.run (cl : ClientLimiter) : List Ev → List Bool
   | [] => []
   | e :: es =>
     let r := cl.allowN e.addr e.t e.n
     r.1 :: ClientLimiter.run r.2 es
+
+/-- the same with the time stamps taken as the buckets' clocks (no clamping): what the code
+    did before repair f8b61d0, and what it does on histories whose time stamps never go back -/
+def ClientLimiter.runAt (cl : ClientLimiter) : List Ev → List Bool
+  | [] => []
+  | e :: es =>
+    let r := cl.allowNAt e.addr e.t e.n
+    r.1 :: ClientLimiter.runAt r.2 es
 
 /-- histories with garbage collections in between -/
 inductive Op where
@@ -212,6 +238,16 @@ def ClientLimiter.runOpsWith (requiresFull : Bool) (cl : ClientLimiter) : List O
   | .gc now only :: os => ClientLimiter.runOpsWith requiresFull (cl.gcWith requiresFull now only) os
 
 def ClientLimiter.runOps (cl : ClientLimiter) (os : List Op) : List Bool := cl.runOpsWith gcRequiresFull os
+
+/-- without clamping (see `runAt`) -/
+def ClientLimiter.runOpsAtWith (requiresFull : Bool) (cl : ClientLimiter) : List Op → List Bool
+  | [] => []
+  | .allow e :: os =>
+    let r := cl.allowNAt e.addr e.t e.n
+    r.1 :: ClientLimiter.runOpsAtWith requiresFull r.2 os
+  | .gc now only :: os => ClientLimiter.runOpsAtWith requiresFull (cl.gcWith requiresFull now only) os
+
+def ClientLimiter.runOpsAt (cl : ClientLimiter) (os : List Op) : List Bool := cl.runOpsAtWith gcRequiresFull os
 
 /-- the arrivals of an op sequence -/
 def Op.evs : List Op → List Ev
@@ -290,6 +326,9 @@ inductive Point where
   | quicConn        -- server_quic.go run
   | quicQuery       -- server_quic.go handleConn
   | gnetConn        -- server_tcp_gnet_linux.go OnOpen
+  | gnetQuery       -- server_tcp_gnet_linux.go OnTraffic (repair 10570ce)
+  | fasthttpConn    -- limiter.go listener.Accept (fasthttp, repair 10570ce)
+  | fasthttpQuery   -- server_http_fasthttp.go HandleFastHTTP (repair 10570ce)
   deriving DecidableEq, Repr
 
 def Point.cost : Point → Nat
@@ -303,6 +342,9 @@ def Point.cost : Point → Nat
   | .quicConn => costQuicConn
   | .quicQuery => costQUICQuery
   | .gnetConn => costTCPConn
+  | .gnetQuery => costTCPQuery
+  | .fasthttpConn => costTCPConn
+  | .fasthttpQuery => costHTTPQuery
 
 /-- what the listener does next -/
 inductive Action where
@@ -325,21 +367,23 @@ def Action.forwards : Action → Bool
   | _ => false
 
 def Point.onAllowed : Point → Action
-  | .udpQuery | .tcpQuery | .httpQuery | .quicQuery => .handle
+  | .udpQuery | .tcpQuery | .httpQuery | .quicQuery | .gnetQuery | .fasthttpQuery => .handle
   | _ => .serve
 
 def Point.onRefused : Point → Action
   | .udpQuery => .respRefused
   | .tcpQuery => .respRefused
+  | .gnetQuery => .respRefused
   | .httpQuery => .http503
+  | .fasthttpQuery => .http503
   | .quicQuery => .closeStream
-  | .tcpConn | .tlsConn | .httpConn | .httpsConn | .quicConn | .gnetConn => .closeConn
+  | .tcpConn | .tlsConn | .httpConn | .httpsConn | .quicConn | .gnetConn | .fasthttpConn => .closeConn
 
-/-- One admission.  `overConcurrent` is `cc > s.maxConcurrent` of the TCP connection loop,
+/-- One admission.  `overConcurrent` is `cc > s.maxConcurrent` of the TCP connection loop (tcp and gnet),
     tested before the limiter (`||` short-circuits); it is `false` everywhere else. -/
 def admission (l : ResLimiter) (p : Point) (overConcurrent : Bool) (addr : Addr) (now : Nat) :
     Action × ResLimiter :=
-  if p = .tcpQuery ∧ overConcurrent then (p.onRefused, l)
+  if (p = .tcpQuery ∨ p = .gnetQuery) ∧ overConcurrent then (p.onRefused, l)
   else
     let r := limiterAllowN l addr now p.cost
     if r.1 = .ok then (p.onAllowed, r.2) else (p.onRefused, r.2)
@@ -444,6 +488,29 @@ def specNoSpuriousRefusalS (c : Opts) (slack : Int) (past : List (SEv × Bool)) 
 def specNoSpuriousRefusal (c : Opts) (slack : Int) (evs : List Ev) (ds : List Bool) : Bool :=
   specNoSpuriousRefusalS c slack [] (evs.map (Ev.toS c)) ds
 
+/-- clause 1 for time stamps in any order: walk forward from a window start; `lo` / `hi` are the
+    oldest / newest time stamp of the subnet seen in the window so far, the budget of the window
+    is `burst + rate·(hi − lo)`. -/
+def segWalk (c : Opts) (slack : Int) (id : Option (Bool × Nat)) (lo hi acc : Nat) : List SEv → List Bool → Bool
+  | e :: es, d :: ds =>
+    if id == e.id then
+      let lo' := min lo e.t
+      let hi' := max hi e.t
+      let acc' := acc + (if d then e.n else 0)
+      decide (((acc' * nano : Nat) : Int) ≤ specBudget c ((hi' - lo' : Nat) : Int) + slack)
+        && segWalk c slack id lo' hi' acc' es ds
+    else segWalk c slack id lo hi acc es ds
+  | _, _ => true
+
+def segBoundS (c : Opts) (slack : Int) : List SEv → List Bool → Bool
+  | e :: es, d :: ds => segWalk c slack e.id e.t e.t 0 (e :: es) (d :: ds) && segBoundS c slack es ds
+  | _, _ => true
+
+/-- every run of consecutive arrivals: the cost admitted for one subnet in it is at most
+    `burst + rate × (newest − oldest time stamp of that subnet in it)` -/
+def segBound (c : Opts) (slack : Int) (evs : List Ev) (ds : List Bool) : Bool :=
+  segBoundS c slack (evs.map (Ev.toS c)) ds
+
 def sortedTimes : List Ev → Bool
   | e :: e' :: es => decide (e.t ≤ e'.t) && sortedTimes (e' :: es)
   | _ => true
@@ -464,6 +531,11 @@ def sortedOps : List Op → Bool
   | o :: o' :: os => decide (o.time ≤ o'.time) && sortedOps (o' :: os)
   | _ => true
 
+def noGc (os : List Op) : Bool := os.all fun o =>
+  match o with
+  | .allow _ => true
+  | .gc _ _ => false
+
 /-- time stamps are `int64` nanoseconds -/
 def timesInRange (os : List Op) : Bool := os.all fun o => decide (o.time ≤ maxDuration)
 
@@ -471,7 +543,12 @@ def timesInRange (os : List Op) : Bool := os.all fun o => decide (o.time ≤ max
     about the arrivals only (gc is internal), for time-ordered histories and configurations
     within the dependency's range. -/
 def spec (c : Opts) (extra : Nat) (os : List Op) (ds : List Bool) : Bool :=
-  if sortedOps os && timesInRange os && saneBurst c then specEvs c extra (Op.evs os) ds else true
+  if sortedOps os && timesInRange os && saneBurst c then specEvs c extra (Op.evs os) ds
+  else if noGc os then
+    -- time stamps in any order (a caller that was delayed between `time.Now()` and the bucket
+    -- lock): every run of consecutive arrivals is within `burst + rate × (newest − oldest)`
+    ds.length == (Op.evs os).length && segBound c ((specLimit c : Int) - 1 + extra) (Op.evs os) ds
+  else true
 
 /-! ## line protocol: component `limiter`
 
@@ -550,7 +627,8 @@ def follow (exact : Bool) (cl : ClientLimiter) (ks : List Addr) : List Op → Li
     let b := match cl.m k with
       | some en => en.b
       | none => Bucket.fresh
-    let tok := b.avail cl.limit cl.burst e.t - ((e.n * nano : Nat) : Int)
+    let t := cl.clock e.addr e.t
+    let tok := b.avail cl.limit cl.burst t - ((e.n * nano : Nat) : Int)
     let margin := (tok + (cl.limit : Int)).natAbs
     let m := cl.allowN e.addr e.t e.n
     let (o, rest) := match obs with
@@ -562,8 +640,8 @@ def follow (exact : Bool) (cl : ClientLimiter) (ks : List Addr) : List Op → Li
     if adopt then
       -- adopt the observed decision
       let d := !m.1
-      let b' : Bucket := if d then ⟨tok, some e.t⟩ else b
-      let r := follow exact { cl with m := cl.m.set k (some ⟨b', e.t⟩) } (k :: ks) os rest
+      let b' : Bucket := if d then ⟨tok, some t⟩ else b
+      let r := follow exact { cl with m := cl.m.set k (some ⟨b', t⟩) } (k :: ks) os rest
       (d :: r.1, r.2)
     else
       let r := follow exact m.2 (k :: ks) os rest
@@ -581,7 +659,10 @@ def run (case impl : String) : String × String :=
       let m := follow (exactTimes ops) cl [] ops ds
       let v :=
         if ds.length != evs.length then "viol:length"
-        else if !(sortedOps ops && timesInRange ops && saneBurst o) then "na"
+        else if !(sortedOps ops && timesInRange ops && saneBurst o) then
+          if !noGc ops then "na"
+          else if !segBound o ((specLimit o : Int) - 1 + tol) evs ds then "viol:bound-any-order"
+          else "ok"
         else if !specBound o ((specLimit o : Int) - 1 + tol) evs ds then "viol:bound"
         else if !specNoSpuriousRefusal o (tol : Int) evs ds then "viol:refused-within-budget"
         else "ok"
@@ -601,6 +682,7 @@ def run (case impl : String) : String × String :=
          op = `u:<addr>` one UDP query | `t:<addr>:<k>` one TCP connection with k queries |
               `h:<addr>:<k>` one HTTP/1.1 connection with k POSTs |
               `q:<addr>:<k>` one DoQ connection with k queries (one stream each) |
+              `g:<addr>:<k>` like `t` on the gnet listener | `f:<addr>:<k>` like `h` on the fasthttp listener |
               `x:<addr>:<n>` `router.limiterAllowN(addr, n)` called directly
   out  : `r=<per-op outcome>,… fwd=<queries seen by the upstream>`
          outcome: per query `o` answered NOERROR | `r` REFUSED | `5` 503 | `x` DoQ stream closed
@@ -613,6 +695,8 @@ inductive LOp where
   | tcp (a : Addr) (k : Nat)
   | http (a : Addr) (k : Nat)
   | quic (a : Addr) (k : Nat)
+  | gnet (a : Addr) (k : Nat)
+  | fasthttp (a : Addr) (k : Nat)
   | direct (a : Addr) (n : Nat)
 
 def lopOfStr (s : String) : Option LOp :=
@@ -621,6 +705,8 @@ def lopOfStr (s : String) : Option LOp :=
   | ["t", a, k] => do pure (.tcp (← addrOfStr a) (← natOfStr k))
   | ["h", a, k] => do pure (.http (← addrOfStr a) (← natOfStr k))
   | ["q", a, k] => do pure (.quic (← addrOfStr a) (← natOfStr k))
+  | ["g", a, k] => do pure (.gnet (← addrOfStr a) (← natOfStr k))
+  | ["f", a, k] => do pure (.fasthttp (← addrOfStr a) (← natOfStr k))
   | ["x", a, n] => do pure (.direct (← addrOfStr a) (← natOfStr n))
   | _ => none
 
@@ -657,6 +743,18 @@ def listenerRun : List LOp → ResLimiter → List String → Nat → List Strin
     let r := admission l .quicConn false a 0
     if r.1 = .serve then
       let (s, fwd, l) := queries .quicQuery a k r.2 "" fwd
+      listenerRun os l (s :: acc) fwd
+    else listenerRun os r.2 ("c" :: acc) fwd
+  | .gnet a k :: os, l, acc, fwd =>
+    let r := admission l .gnetConn false a 0
+    if r.1 = .serve then
+      let (s, fwd, l) := queries .gnetQuery a k r.2 "" fwd
+      listenerRun os l (s :: acc) fwd
+    else listenerRun os r.2 ("c" :: acc) fwd
+  | .fasthttp a k :: os, l, acc, fwd =>
+    let r := admission l .fasthttpConn false a 0
+    if r.1 = .serve then
+      let (s, fwd, l) := queries .fasthttpQuery a k r.2 "" fwd
       listenerRun os l (s :: acc) fwd
     else listenerRun os r.2 ("c" :: acc) fwd
   | .direct a n :: os, l, acc, fwd =>
@@ -701,6 +799,8 @@ def LOp.points : LOp → Option (Addr × Option Point × Point × Nat)
   | .tcp a k => some (a, some .tcpConn, .tcpQuery, k)
   | .http a k => some (a, some .httpConn, .httpQuery, k)
   | .quic a k => some (a, some .quicConn, .quicQuery, k)
+  | .gnet a k => some (a, some .gnetConn, .gnetQuery, k)
+  | .fasthttp a k => some (a, some .fasthttpConn, .fasthttpQuery, k)
   | .direct _ _ => none
 
 /-- the attempts of one op -/
@@ -719,6 +819,12 @@ def opAtoms (l : ResLimiter) (op : LOp) : List Atom × ResLimiter :=
   | .quic a k =>
     let x := attempt l .quicConn a
     if x.1.admitted then let xs := queryAtoms .quicQuery a k x.2; (x.1 :: xs.1, xs.2) else ([x.1], x.2)
+  | .gnet a k =>
+    let x := attempt l .gnetConn a
+    if x.1.admitted then let xs := queryAtoms .gnetQuery a k x.2; (x.1 :: xs.1, xs.2) else ([x.1], x.2)
+  | .fasthttp a k =>
+    let x := attempt l .fasthttpConn a
+    if x.1.admitted then let xs := queryAtoms .fasthttpQuery a k x.2; (x.1 :: xs.1, xs.2) else ([x.1], x.2)
 
 /-- all attempts of a run, in order -/
 def listenerAtoms : List LOp → ResLimiter → List Atom
@@ -738,6 +844,7 @@ def obsAtoms (op : LOp) (out : String) : Option (List Atom) :=
     | some (a, conn, q, k) =>
       let refusedCh := match q with
         | .httpQuery => '5'
+        | .fasthttpQuery => '5'
         | .quicQuery => 'x'
         | _ => 'r'
       let qs := out.toList.mapM fun ch =>
@@ -802,6 +909,8 @@ def renderOp (op : LOp) (xs : List Atom) : String :=
   | .tcp _ _, x :: xs => if x.admitted then String.ofList (xs.map (ch 'r')) else "c"
   | .http _ _, x :: xs => if x.admitted then String.ofList (xs.map (ch '5')) else "c"
   | .quic _ _, x :: xs => if x.admitted then String.ofList (xs.map (ch 'x')) else "c"
+  | .gnet _ _, x :: xs => if x.admitted then String.ofList (xs.map (ch 'r')) else "c"
+  | .fasthttp _ _, x :: xs => if x.admitted then String.ofList (xs.map (ch '5')) else "c"
   | _, _ => "?"
 
 /-- the model's run without a global limit: outcomes per op and the number of forwards -/
@@ -868,6 +977,23 @@ def runGcRace (case impl : String) : String × String :=
   match kvNat toks "trials", kvNat (words impl) "hits" with
   | some _, some h => ("hits=0", if h == 0 then "ok" else "viol:gc-forgot-an-arrival")
   | some _, none => ("hits=0", "unparsed")
+  | _, _ => ("bad-case", "na")
+
+/-! ## line protocol: component `limiter_clock`
+
+  Many goroutines doing `now := time.Now(); AllowN(addr, now, 1)` on the real limiter with the
+  real clock; time stamps reach the bucket out of order.  `bucket_bound_any_order` says that the
+  admitted total is at most `burst + rate × (newest − oldest time stamp)`; the harness compares
+  with `burst + rate × (end − start)` (+ 0.5 % + 2 tokens).
+
+  case : `goroutines=<g> ms=<duration> lim=<int> burst=<int>`      out : `within=<0|1>`
+-/
+
+def runClock (case impl : String) : String × String :=
+  let toks := words case
+  match kvNat toks "goroutines", kvNat (words impl) "within" with
+  | some _, some w => ("within=1", if w == 1 then "ok" else "viol:over-the-bound-with-real-clock")
+  | some _, none => ("within=1", "unparsed")
   | _, _ => ("bad-case", "na")
 
 end MosVerif.Limiter
